@@ -281,7 +281,15 @@ func (g *PG) stmt(depth int) {
 		case c == 8 && len(g.vars("*T")) > 0 && r.Bool():
 			g.f("multi-assign-dependent-targets")
 			tv := Pick(r, g.vars("*T"))
-			g.w("%s.A, %s = %s, &T{A: %s, B: 2}\n", tv, tv, g.intExpr(1), g.intExpr(1))
+			// the instance the field store lands in stays observable through an alias
+			old := g.fresh("o")
+			g.w("%s := %s\n", old, tv)
+			if r.Bool() {
+				g.w("%s.A, %s = %s, &T{A: %s, B: 2}\n", tv, tv, g.intExpr(1), g.intExpr(1))
+			} else {
+				g.w("%s.B, %s.A, %s = %s, %s.B, &T{A: %s, B: 2}\n", tv, tv, tv, g.intExpr(1), tv, g.intExpr(1))
+			}
+			g.w("println(\"alias\", %s.A, %s.B, %s.A, %s.B)\n", old, old, tv, tv)
 		case c == 9 && len(g.vars("string")) > 0:
 			g.f("string-assign")
 			if sv := Pick(r, g.vars("string")); r.Bool() {
@@ -315,10 +323,14 @@ func (g *PG) stmt(depth int) {
 		case c == 6 && len(g.vars("map[string]int")) > 0:
 			g.f("map-store")
 			m := Pick(r, g.vars("map[string]int"))
-			if r.Bool() {
+			switch r.Intn(3) {
+			case 0:
 				g.w("%s[%q] = %s\n", m, Pick(r, []string{"a", "b", "c"}), g.intExpr(2))
-			} else {
+			case 1:
 				g.w("%s[%q]++\n", m, Pick(r, []string{"a", "b"}))
+			default:
+				g.f("map-delete")
+				g.w("delete(%s, %q)\nprintln(\"len\", len(%s))\n", m, Pick(r, []string{"a", "b", "c"}), m)
 			}
 		case c == 7 && len(g.vars("*T")) > 0:
 			g.f("field-store")
@@ -384,8 +396,15 @@ func (g *PG) stmt(depth int) {
 				g.trace()
 			}
 		default:
-			if iv := g.vars("int"); len(iv) >= 2 {
+			if iv := g.vars("int"); len(iv) >= 2 && r.Bool() {
 				g.w("%s, %s = %s, %s\n", iv[0], iv[1], iv[1], iv[0])
+			} else if len(iv) >= 1 { // a package-level variable and a local in one target list, either order
+				g.f("multi-assign-global-and-local")
+				if r.Bool() {
+					g.w("gacc, %s = gacc+%s, %s\nprintln(\"gacc\", gacc)\n", iv[0], iv[0], g.intExpr(1))
+				} else {
+					g.w("%s, gacc = gacc+1, %s\nprintln(\"gacc\", gacc)\n", iv[0], iv[0])
+				}
 			} else {
 				g.w("pair2(1, 2)\n")
 			}
@@ -457,7 +476,13 @@ func (g *PG) stmt(depth int) {
 		case len(g.vars("map[string]int")) > 0 && len(g.vars("int")) > 0:
 			g.f("range-map")
 			acc := Pick(r, g.vars("int"))
-			g.w("for _, e := range %s {\n%s += e\n}\n", Pick(r, g.vars("map[string]int")), acc)
+			if m := Pick(r, g.vars("map[string]int")); r.Bool() {
+				g.w("for _, e := range %s {\n%s += e\n}\n", m, acc)
+			} else { // the body deletes and re-inserts one key; every other key is still produced exactly once
+				g.f("range-map-churn")
+				t := Pick(r, []string{"a", "b", "c", "t"})
+				g.w("for k, e := range %s {\ndelete(%s, %q)\n%s[%q] = 1\nif k != %q {\n%s += e\n}\n}\nprintln(\"churn\", %s, len(%s))\n", m, m, t, m, t, t, acc, acc, m)
+			}
 		default:
 			g.f("range-string")
 			kk, vv := g.fresh("k"), g.fresh("c")
@@ -532,11 +557,13 @@ func (g *PG) stmt(depth int) {
 // GenProgram returns a program and the set of features it uses.
 func GenProgram(r *RNG, depth int) (GoProg, map[string]bool) {
 	g := &PG{r: r, budget: 45, feat: map[string]bool{}}
-	g.w("const KA = 7\n\nconst KB = KA*2 + 1\n\nfunc idx(k int) int {\n\tprintln(\"idx\", k)\n\treturn k %% 3\n}\n\nvar fuel = 80\n\ntype T struct {\n\tA int\n\tB int\n}\n\nfunc (t *T) Sum(k int) int {\n\treturn t.A + t.B*k\n}\n\nfunc (t *T) Inc() {\n\tt.A++\n\tt.B += 2\n}\n\n")
+	g.w("const KA = 7\n\nconst KB = KA*2 + 1\n\nfunc idx(k int) int {\n\tprintln(\"idx\", k)\n\treturn k %% 3\n}\n\nvar fuel = 80\n\nvar gacc = 0\n\ntype T struct {\n\tA int\n\tB int\n}\n\nfunc (t *T) Sum(k int) int {\n\treturn t.A + t.B*k\n}\n\nfunc (t *T) Inc() {\n\tt.A++\n\tt.B += 2\n}\n\n")
 	g.w("func add(a int, b int) int {\n\treturn a + b\n}\n\nfunc isOdd(a int) bool {\n\treturn a%%2 != 0\n}\n\n")
 	g.w("func pair2(a int, b int) (int, int) {\n\treturn b, a + 1\n}\n\nfunc tri(a int) (int, int, int) {\n\treturn a, a + 1, a + 2\n}\n\n")
 	// results of other types than the parameters, returned as untyped constants: they take the result type
 	g.w("func halfF(n int) float64 {\n\tif n > 100000 {\n\t\treturn 3\n\t}\n\treturn 1\n}\n\nfunc wrapB(n int) byte {\n\treturn 250\n}\n\nfunc (t *T) Ratio() float64 {\n\treturn 3\n}\n\n")
+	// a parameter of another type than the untyped constant argument, in a function with locals of its own; a result that is one spread call
+	g.w("func scaleP(x float64) float64 {\n\ty := x / 2\n\tz := y\n\treturn z\n}\n\nfunc sumv(xs ...int) int {\n\ts := 0\n\tfor _, x := range xs {\n\t\ts += x\n\t}\n\treturn s\n}\n\nfunc fwd(xs ...int) int {\n\treturn sumv(xs...)\n}\n\n")
 	nh := r.Intn(3)
 	for h := 0; h < nh; h++ {
 		g.w("func h%d(p int) int {\n", h)
